@@ -42,8 +42,18 @@ def general_rate_like(r, model, reactants, k):
     """A general (expression) rate: sum of positive terms built on the reactants (no cancellation)."""
     kname = ["num", k]
     terms = [["*", kname] + [["sp", s] for s in reactants]] if reactants else [kname]
-    form = r.choice(["plain", "plus_const", "sat", "exp", "pow", "max", "step", "volmax", "volmin", "volabs"])
+    form = r.choice(["plain", "plus_const", "sat", "exp", "pow", "max", "step", "volmax", "volmin", "volabs",
+                     "log", "min", "abs", "bump"])
     base = terms[0]
+    if form in ("log", "min", "abs", "bump") and reactants:
+        s = reactants[0]
+        if form == "log":
+            return ["*", base, ["log", ["+", ["num", 2.0], ["sp", s]]]]
+        if form == "min":
+            return ["min", base, ["num", nice(k * 6.0)], ["*", ["num", nice(k * 2.0)], ["+", ["num", 1.0], ["sp", s]]]]
+        if form == "abs":
+            return ["*", base, ["+", ["num", 0.25], ["abs", ["-", ["sp", s], ["num", 3.0]]]]]
+        return ["*", base, ["exp", ["/", ["neg", ["^", ["-", ["sp", s], ["num", 3.0]], ["num", 2.0]]], ["num", 8.0]]]]
     if form == "step":
         # a rate gated at an INTEGER threshold: counts sit exactly on it, and Heaviside(0) is 1 ("at least n copies")
         pool = list(reactants) + [x for x in (model.get("species") or []) if x not in reactants]
